@@ -122,12 +122,12 @@ def check(run, F, tier):
         w = conn.word(p) or []
         if "RequestSendPacket" not in w:
             continue
-        fl = [conn.truth(p, e) for _, e in conn.calls(p, "::is_failure")]
-        if fl and fl[0] is True:
+        failing = conn.rc_failing(p)
+        if failing is True:
             n += 1
             if not set_calls(p, "remove"):
                 bad = p
-        elif fl and fl[0] is False:
+        elif failing is False:
             if set_calls(p, "remove"):
                 bad = p
     if bad or n == 0:
